@@ -194,6 +194,9 @@ type C01Plan struct {
 	Alpha    string         `json:"alpha"`
 	Recs     []SeqRec       `json:"recs"`
 	Delivery simio.Delivery `json:"delivery"`
+	// WriteFault > 0: additionally write the records to a medium that fails
+	// after WriteFault-1 bytes (0 = no write-fault pass).
+	WriteFault int `json:"write_fault,omitempty"`
 }
 
 var phredEncodings = []alphabet.Encoding{alphabet.Sanger, alphabet.Illumina1_3, alphabet.Illumina1_5, alphabet.Illumina1_8, alphabet.Illumina1_9}
@@ -277,6 +280,12 @@ func genC01(r *simrt.RNG) *Case {
 		pl.Qual = r.Intn(8) != 0
 		pl.Recs = genSeqRecs(r, pl.Alpha, pl.Qual, enc)
 	}
+	if r.Intn(3) == 0 {
+		pl.WriteFault = 1 + r.Intn(1<<20)
+		if r.Bool() {
+			pl.WriteFault = 1 + r.Intn(200)
+		}
+	}
 	return &Case{Prop: "C01", Kind: pl.Format, Plan: marshalPlan(pl)}
 }
 
@@ -310,7 +319,12 @@ func seqTemplate(pl *C01Plan) seqio.SequenceAppender {
 // writeSeqs writes the records through the real writer into a Sink and checks
 // the byte-count clause against the ledger.
 func writeSeqs(pl *C01Plan) ([]byte, int, *simrt.Violation) {
-	sink := &simio.Sink{}
+	return writeSeqsTo(pl, &simio.Sink{})
+}
+
+// writeSeqsTo also serves the write-fault pass: with a failing sink the only
+// requirement is the byte-count clause, for the failing call too.
+func writeSeqsTo(pl *C01Plan, sink *simio.Sink) ([]byte, int, *simrt.Violation) {
 	var w seqio.Writer
 	if pl.Format == "fasta" {
 		w = fasta.NewWriter(sink, pl.Width)
@@ -322,11 +336,19 @@ func writeSeqs(pl *C01Plan) ([]byte, int, *simrt.Violation) {
 	for i, rec := range pl.Recs {
 		before := len(sink.Buf)
 		n, err := w.Write(buildSeq(rec, pl))
-		if err != nil {
+		if err != nil && !sink.Failed {
 			return nil, 0, viol("c01-"+pl.Format+"-write-error", "record %d: Write failed on a healthy sink: %v", i, err)
 		}
 		if n != len(sink.Buf)-before {
+			what := ""
+			if sink.Failed {
+				what = fmt.Sprintf(" (the sink failed after %d bytes in total; Write returned %v)", sink.FailAt, err)
+				return nil, 0, viol("c01-"+pl.Format+"-bytecount-on-failure", "record %d: Write returned n=%d but %d bytes were emitted%s", i, n, len(sink.Buf)-before, what)
+			}
 			return nil, 0, viol("c01-"+pl.Format+"-bytecount", "record %d: Write returned n=%d but %d bytes were emitted", i, n, len(sink.Buf)-before)
+		}
+		if sink.Failed {
+			break
 		}
 	}
 	return sink.Buf, len(sink.Calls), nil
@@ -450,6 +472,14 @@ func runC01(t *testing.T, c *Case, o RunOpts) *Result {
 	res.Steps += src.Reads
 	if v == nil {
 		v = compareSeqs(&pl, got)
+	}
+	if v == nil && pl.WriteFault > 0 && len(text) > 0 {
+		sink := &simio.Sink{Faulty: true, FailAt: (pl.WriteFault - 1) % len(text)}
+		res.Fired = append(res.Fired, simrt.IORecord{Kind: "write-fails-at-byte"})
+		if pv := guard(func() { _, _, v = writeSeqsTo(&pl, sink) }); pv != nil {
+			v = pv
+		}
+		res.Steps += len(sink.Calls)
 	}
 	res.Viol = v
 	return res
